@@ -1189,6 +1189,8 @@ def rule_tywf(ctx):
                 continue
             org = flow.origins(r, tuple(place_fields(a["pl"])))
             is_impl = (f.get("impl_trait") or "").endswith("typing::check::Check")
+            if "{closure" in k:
+                continue        # what a closure captured (the enclosing rule's `expected`, say) is the enclosing function's business
             # the caller's own `expected` (argument 4 of Check::check), i64, or an instance out of the symbol table
             supplied = set()
             for o in org:
